@@ -45,23 +45,26 @@ def b64Encode : Bytes → Bytes
 /-- RawStdEncoding.Encode (no padding) -/
 def b64EncodeRaw (b : Bytes) : Bytes := (b64Encode b).filter (· ≠ 61)
 
+/-- the last quantum: `xx==`, `xxx=` or `xxxx` -/
+def b64Last (a b c d : UInt8) : Option Bytes :=
+  match b64Val a, b64Val b with
+  | some x, some y =>
+    if c = 61 ∧ d = 61 then some [UInt8.ofNat (x * 4 + y / 16)]
+    else match b64Val c with
+      | none => none
+      | some z =>
+        if d = 61 then some [UInt8.ofNat (x * 4 + y / 16), UInt8.ofNat (y % 16 * 16 + z / 4)]
+        else match b64Val d with
+          | none => none
+          | some w => some [UInt8.ofNat (x * 4 + y / 16), UInt8.ofNat (y % 16 * 16 + z / 4), UInt8.ofNat (z % 4 * 64 + w)]
+  | _, _ => none
+
 /-- StdEncoding.Decode on input without CR/LF: full quanta of four alphabet characters; padding only
     in the last quantum (`xx==` or `xxx=`); anything else is CorruptInputError -/
 def b64Decode : Bytes → Option Bytes
   | [] => some []
-  | [a, b, c, d] =>
-    match b64Val a, b64Val b with
-    | some x, some y =>
-      if c = 61 ∧ d = 61 then some [UInt8.ofNat (x * 4 + y / 16)]
-      else match b64Val c with
-        | none => none
-        | some z =>
-          if d = 61 then some [UInt8.ofNat (x * 4 + y / 16), UInt8.ofNat (y % 16 * 16 + z / 4)]
-          else match b64Val d with
-            | none => none
-            | some w => some [UInt8.ofNat (x * 4 + y / 16), UInt8.ofNat (y % 16 * 16 + z / 4), UInt8.ofNat (z % 4 * 64 + w)]
-    | _, _ => none
   | a :: b :: c :: d :: r =>
+    if r.isEmpty then b64Last a b c d else
     match b64Val a, b64Val b, b64Val c, b64Val d with
     | some x, some y, some z, some w =>
       match b64Decode r with
@@ -214,6 +217,23 @@ def joinSp : List Bytes → Bytes
   | [x] => x
   | x :: r => x ++ [32] ++ joinSp r
 
+/-- the part of ParseKnownHosts that indexes `keyFields` (3 ≤ len ≤ 5 is checked by the caller) -/
+def knownHostsFields (o : PtOracle) (kf : List Bytes) (rest : Option Bytes) : KHResult :=
+  -- keyFields[0][0]
+  match kf with
+  | [] => .panic
+  | [] :: _ => .panic
+  | (c0 :: m) :: tl =>
+    let (marker, kf') := if c0 = 64 then (m, tl) else ([], kf)
+    match kf' with
+    | hosts :: want :: keyParts =>
+      (match parseKeyField o (joinSp keyParts) with
+       | none => .err
+       | some (k, comment) =>
+         if k.type ≠ some want then .err
+         else .ok marker (splitComma hosts []) k comment rest)
+    | _ => .panic
+
 def knownHostsLine (o : PtOracle) (line : Bytes) (rest : Option Bytes) : Option KHResult :=
   let inp := trimSpace (cutCR line)
   match inp with
@@ -224,21 +244,7 @@ def knownHostsLine (o : PtOracle) (line : Bytes) (rest : Option Bytes) : Option 
     | none => none
     | some _ =>
       let kf := fields inp
-      if kf.length < 3 ∨ kf.length > 5 then some .err else
-      -- keyFields[0][0]
-      match kf with
-      | [] => some .panic
-      | [] :: _ => some .panic
-      | (c0 :: m) :: tl =>
-        let (marker, kf') := if c0 = 64 then (m, tl) else ([], kf)
-        match kf' with
-        | hosts :: want :: keyParts =>
-          (match parseKeyField o (joinSp keyParts) with
-           | none => some .err
-           | some (k, comment) =>
-             if k.type ≠ some want then some .err
-             else some (.ok marker (splitComma hosts []) k comment rest))
-        | _ => some .panic
+      if kf.length < 3 ∨ kf.length > 5 then some .err else some (knownHostsFields o kf rest)
 
 def parseKnownHostsGo (o : PtOracle) : Nat → Bytes → KHResult
   | 0, _ => .eof
